@@ -50,15 +50,27 @@ def ratOps (n : Nat) : VecOps (RVec n) Rat :=
   { axpy := vaxpy, scale := vscale, dot := vdot, zero := vzero n }
 
 /-- preconditioner of a session: `none` = no preconditioner object (`copy` + `filter_cor`);
-    `some (M, failAt)` = the harness mock: `M·v`, the `failAt`-th call (1-based, 0 = never) fails -/
+    `some (M, failAt)` = the harness mock: `M·v`; the `failAt`-th call (1-based, 0 = never) fails, and so does
+    every call whose input starts with the sentinel 7777 -/
 def precOf {n : Nat} (mask : Vector Bool n) : Option (RMat n × Nat) → Nat → RVec n → Option (RVec n)
   | none, _, v => some (maskF mask v)
-  | some (M, failAt), k, v => if failAt ≠ 0 ∧ k + 1 = failAt then none else some (matVec M v)
+  | some (M, failAt), k, v =>
+    if failAt ≠ 0 ∧ k + 1 = failAt then none
+    else if v.toList.head? = some 7777 then none
+    else some (matVec M v)
+
+/-- `SparseMatrixCSR::transpose` -/
+def transposeM {n : Nat} (A : RMat n) : RMat n := Vector.ofFn fun i => Vector.ofFn fun j => A[j][i]
 
 def ratSys {n : Nat} (A : RMat n) (mask : Vector Bool n) (pre : Option (RMat n × Nat)) : Sys (RVec n) Rat :=
-  { ops := ratOps n, A := matVec A, Fd := maskF mask, prec := precOf mask pre, nrm := vnorm }
+  { ops := ratOps n, A := matVec A, Fd := maskF mask, prec := precOf mask pre, nrm := vnorm,
+    At := matVec (transposeM A) }
 
 /-- `Math::sqr(Math::eps<Q>())` of harness/common/exact_q.hpp -/
 def epsSqQ : Rat := mkRat 1 (2 ^ 104)
+
+/-- the convergence-control members as initialised by the `IterativeSolver` constructor -/
+def freshState : State Rat :=
+  { defInit := 0, defCur := 0, defPrev := 0, numIter := 0, numStag := 0, curFin := true }
 
 end FeatModel.Solver
